@@ -79,7 +79,12 @@ func tableConcat(L *LState) int {
 			L.Push(sep)
 		}
 	}
-	L.Push(stringConcat(L, L.GetTop()-retbottom, L.reg.Top()-1))
+	ret := stringConcat(L, L.GetTop()-retbottom, L.reg.Top()-1)
+	if _, ok := ret.(LString); !ok {
+		// a single number element comes back unconverted
+		ret = LString(LVAsString(ret))
+	}
+	L.Push(ret)
 	return 1
 }
 
